@@ -529,6 +529,8 @@ func (rngdata *RangeNamespaceData) ReadFrom(reader io.Reader) (int64, error) {
 	}
 
 	rngdata.Shares = make([][]libshare.Share, len(nd))
+	// the receiver may hold a previously decoded response: nothing of it may survive
+	rngdata.FirstIncompleteRowProof, rngdata.LastIncompleteRowProof = nil, nil
 	for i, row := range nd {
 		rngdata.Shares[i] = row.Shares
 		if i == 0 {
